@@ -185,6 +185,100 @@ def handledInCallback (repaired : Bool) : Kind → Bool
   | .keyboardInterrupt => repaired
   | .otherBase => false
 
+
+/-! ### (3') a raised object that is NOT collected: how it travels up the tree
+
+`Kind × path`: the local path (`Runnable._run`) and the done-callback path (`Runnable._finish_run`) each process some
+kinds of raised objects as a failure of the run; the composite's loops collect `Exception`s only. `KCfg` says which
+kinds the two paths process (`head` = the tree after f3b0474, `proposed` = both paths process every `BaseException`). -/
+
+structure KCfg where
+  kiCallback : Bool
+  otherBase : Bool
+  deriving DecidableEq, Repr
+
+def KCfg.pinned : KCfg := { kiCallback := false, otherBase := false }
+def KCfg.head : KCfg := { kiCallback := true, otherBase := false }
+def KCfg.proposed : KCfg := { kiCallback := true, otherBase := true }
+
+def KCfg.local (c : KCfg) : Kind → Bool
+  | .exception => true
+  | .keyboardInterrupt => true
+  | .otherBase => c.otherBase
+
+def KCfg.callback (c : KCfg) : Kind → Bool
+  | .exception => true
+  | .keyboardInterrupt => c.kiCallback
+  | .otherBase => c.otherBase
+
+/-- how a node on the path from the raising function up to the outermost composite ends -/
+inductive LStat
+  | failed        -- marked failed, not running, announced `failed`
+  | leftRunning   -- still marked running, not failed, announced nothing
+  | falselyDone   -- not running, not failed, announced `ran`: the raised object is gone
+  | fine          -- a composite above the point where the object vanished: completes normally
+  deriving DecidableEq, Repr
+
+/-- how the error reaches the node's parent; `k` is the kind of the ORIGINAL object, `wraps` the number of
+`FailedChildError`s around it so far (what is being raised is an `Exception` as soon as `wraps > 0`) -/
+inductive Hand
+  | collect (k : Kind) (wraps : Nat)   -- the parent's loop (or its status sweep) collects it and goes on draining
+  | raw (k : Kind) (wraps : Nat)       -- it passes through the parent's loop at once: the loop is left as it is
+  | gone
+  deriving DecidableEq, Repr
+
+def curKind (k : Kind) (w : Nat) : Kind := if w = 0 then k else .exception
+
+/-- a node (function node or composite) whose own run raises `k` wrapped `w` times -/
+def nodeOut (c : KCfg) (onExec : Bool) (k : Kind) (w : Nat) : LStat × Hand :=
+  let cur := curKind k w
+  if onExec then
+    if c.callback cur then (.failed, .collect k w) else (.falselyDone, .gone)
+  else if cur = .exception then (.failed, .collect k w)
+  else if c.local cur then (.failed, .raw k w)
+  else (.leftRunning, .raw k w)
+
+/-- a composite receiving what its child hands up: collected → it drains and raises a `FailedChildError` (an
+`Exception`) wrapping it; raw → its loop is left at once (`aborted`: children out on an executor stay out) and the
+object is what its own run raises; gone → it carries on. Result: its status, whether its loop was aborted, what it
+hands up. -/
+def compOut (c : KCfg) (onExec : Bool) : Hand → LStat × Bool × Hand
+  | .collect k w => ((nodeOut c onExec k (w + 1)).1, false, (nodeOut c onExec k (w + 1)).2)
+  | .raw k w => ((nodeOut c onExec k w).1, true, (nodeOut c onExec k w).2)
+  | .gone => (.fine, false, .gone)
+
+structure KOut where
+  stats : List LStat      -- the raising node first, then every composite up to the outermost
+  aborted : List Bool     -- per composite: its loop was left while children may be out
+  hand : Hand             -- what the outermost node hands to ... the caller of the run
+  deriving DecidableEq, Repr
+
+def climb (c : KCfg) : List Bool → KOut → KOut
+  | [], o => o
+  | e :: rest, o =>
+    let r := compOut c e o.hand
+    climb c rest { stats := o.stats ++ [r.1], aborted := o.aborted ++ [r.2.1], hand := r.2.2 }
+
+/-- `execs`: is the raising node / each composite above it handed to an executor (innermost first; the outermost
+composite is run by the caller) -/
+def propagate (c : KCfg) (k : Kind) : List Bool → KOut
+  | [] => { stats := [], aborted := [], hand := .gone }
+  | e :: rest => climb c rest { stats := [(nodeOut c e k 0).1], aborted := [], hand := (nodeOut c e k 0).2 }
+
+/-- what the caller of the outermost run gets -/
+inductive Caller
+  | raw (k : Kind)               -- the raised object itself
+  | chain (k : Kind) (n : Nat)   -- `n` `FailedChildError`s with the raised object at the bottom
+  | nothing
+  deriving DecidableEq, Repr
+
+def Hand.caller : Hand → Caller
+  | .collect k 0 => .raw k
+  | .collect k (w + 1) => .chain k (w + 1)
+  | .raw k 0 => .raw k
+  | .raw k (w + 1) => .chain k (w + 1)
+  | .gone => .nothing
+
 /-! ### finite presentation (driver, witnesses) -/
 
 /-- children given as an association list; everybody else is a function node -/
